@@ -326,6 +326,27 @@ pub fn hyphen_configs() -> Vec<Conv> {
         p.trailing_var_arg = true;
         c.args.push(p);
     }));
+    // no help flag and no help subcommand anywhere: what do errors point at?
+    push("help:both-disabled+sub", base(&|c| {
+        c.set(Setting::DisableHelpFlag);
+        c.set(Setting::DisableHelpSubcommand);
+        let mut s = CmdSpec::new("sub");
+        s.args.push(ArgSpec::flag("x", Some('x'), None));
+        c.subs.push(s);
+    }));
+    push("help:flag-disabled+sub", base(&|c| {
+        c.set(Setting::DisableHelpFlag);
+        let mut s = CmdSpec::new("sub");
+        s.args.push(ArgSpec::flag("x", Some('x'), None));
+        c.subs.push(s);
+    }));
+    // a short-only argument with long aliases
+    push("alias:long-aliases-of-a-short-only-argument", base(&|c| {
+        let a = c.arg_mut("a").unwrap();
+        a.long = None;
+        a.aliases.push("alpha".into());
+        a.visible_aliases.push("alf".into());
+    }));
     // value language at the grammar level: possible values with aliases, with and without ignore_case
     push("values:possible-values-aliases", {
         let mut c = CmdSpec::new("prog");
@@ -413,7 +434,7 @@ pub fn values_alphabet() -> Vec<Vec<u8>> {
 }
 
 pub fn hyphen_alphabet() -> Vec<Vec<u8>> {
-    ["v", "-a", "--alpha", "-o", "--opt", "--opt=v", "-ov", "-z", "--unk", "-1", "--", "-az", "w", "sub", "-x", "-1.5", "-", "", "-e", "-ae", "u", ";"]
+    ["v", "-a", "--alpha", "-o", "--opt", "--opt=v", "-ov", "-z", "--unk", "-1", "--", "-az", "w", "sub", "-x", "-1.5", "-", "", "-e", "-ae", "u", ";", "-1e3", "--opt=-1e3"]
         .iter()
         .map(|s| s.as_bytes().to_vec())
         .collect()
